@@ -3,7 +3,7 @@ from props import _core, _api
 import core_ops
 
 LEVEL = "proof"
-LEAN_MODULES = ["Props.C01"]
+LEAN_MODULES = ["Props.C01", "Props.C01more"]
 ASSUMPTIONS = ["theorems cover the modelled libmpf core; results of the rest of the public API are monitored by a sampling sweep "
                "(every public callable of mp and iv, MPMATH_STRICT=Y in the workers), not proved"]
 
